@@ -61,7 +61,8 @@ def main(argv=None):
         from symx import harness
 
         rec = json.loads(pathlib.Path(a.replay).read_text())
-        rp = harness.replay(mod.run, rec["params"], rec["witness"], rec.get("tol", 1e-9))
+        runfn = (lambda h, **p: mod.regressions(h)) if rec["params"].get("kind") == "__regressions__" else mod.run
+        rp = harness.replay(runfn, rec["params"] if runfn is mod.run else {}, rec["witness"], rec.get("tol", 1e-9))
         print(json.dumps({"params": rec["params"], "witness": rec["witness"], "replay": rp}, indent=1, default=str))
         bad = rp["status"] == "exception" or rp["failed"]
         if bad:
@@ -98,6 +99,16 @@ def main(argv=None):
     covers = sorted({c for r in results for c in r.get("covers", [])})
     cuts = sorted({c for r in results for c in r.get("cuts", [])})
     functions = sorted({f for r in results for f in r.get("functions", [])})
+
+    # ---- concrete regression witnesses of fixed defects (auxiliary; replayed against the real code)
+    if hasattr(mod, "regressions") and not a.only:
+        from symx import harness as _hn
+
+        rp = _hn.replay(lambda h, **p: mod.regressions(h), {}, {})
+        agg["regression_witnesses"] = len(rp.get("checked", []))
+        if rp["status"] != "ok" or rp["failed"]:
+            violations.append({"obligation": "regression witness: " + "; ".join(rp.get("failed", [])[:3] or [rp.get("exc", "")]),
+                               "witness": {}, "params": {"kind": "__regressions__"}, "replay": rp, "kind": "regression"})
 
     # ---- known findings
     known = [k for k in load_known() if k.get("property") == prop]
@@ -159,7 +170,7 @@ def main(argv=None):
                     "each is decided by one z3 query PC ∧ ¬obligation over ALL values of the symbolic inputs within the stated shapes; "
                     "states = feasible paths explored, transitions = branch decisions taken",
             "obligations": agg["obligations"], "discharged": agg["discharged"], "trivially_true": agg["trivial"],
-            "work_items": len(items), "solver_s": solver_s, "solver_checks": agg["checks"], "rng_stub_calls": agg["rng_calls"],
+            "work_items": len(items), "regression_witnesses_replayed": agg.get("regression_witnesses", 0), "solver_s": solver_s, "solver_checks": agg["checks"], "rng_stub_calls": agg["rng_calls"],
             "exhaustive": False,
             "functions_encoded": functions or meta.get("functions", []),
             "bounds": meta.get("bounds", {}).get(a.tier, meta.get("bounds", {})),
